@@ -60,7 +60,12 @@ func cmdVC(args []string) {
 	fmt.Printf("loaded in %.1fs\n", time.Since(t0).Seconds())
 	var results []*FuncResult
 	for _, k := range fs.Args() {
-		r := verifyFunc(prog, expandKey(k))
+		var r *FuncResult
+		if strings.HasPrefix(k, "lemma:") {
+			r = verifyLemma(prog, strings.TrimPrefix(k, "lemma:"))
+		} else {
+			r = verifyFunc(prog, expandKey(k))
+		}
 		results = append(results, r)
 		for _, e := range r.Errors {
 			fmt.Println("ERROR", e)
